@@ -29,6 +29,8 @@ func defC03() *ph.Def {
 			{Name: "b", Kind: ph.Bool},
 			{Name: "s", Kind: ph.Str},
 			{Name: "l", Kind: ph.StrS, Min: 1, Max: 2},
+			{Name: "n", Kind: ph.IntS, Min: 1, Max: 2},
+			{Name: "m", Kind: ph.Map, Min: 1, Max: 2},
 		},
 		Cmds: []*ph.CmdDef{
 			{Name: "c", Opts: []ph.OptDef{{Name: "d", Kind: ph.Bool}}, Cmds: []*ph.CmdDef{{Name: "e"}}},
@@ -98,7 +100,7 @@ func init() {
 	register(&Check{
 		ID:        "C03",
 		QuickSecs: 120, ThoroSecs: 1200,
-		Rule: "input-space exploration of the real parser: every argv of length <= L over an 18-token alphabet (positionals, empty string, lonesome dash, terminator, known/unknown long, short and bundled options, attached and detached values, command names) " +
+		Rule: "input-space exploration of the real parser: every argv of length <= L over a 21-token alphabet (positionals, empty string, lonesome dash, terminator, known/unknown long, short and bundled options, attached and detached values, multi-value string / int / map options with optional further values, command names) " +
 			"in all 18 mode x unknown-mode x require-order configurations; remaining compared (i) model-free as a sub-sequence of the input and (ii) with the reference model; states = argv prefixes visited, transitions = token appends, " +
 			"distinct_nontrivial = distinct (configuration, argv) cases inside the specified territory (every enumerated case is distinct by construction)",
 		Assume: []string{"tokens outside the alphabet and argv longer than L are not covered", "cases in the closed list of unspecified zones (DESIGN.md section 3) are only checked model-free"},
@@ -107,7 +109,7 @@ func init() {
 			if c.Tier == "thorough" {
 				depth = 5
 			}
-			alpha := []string{"p", "", "-", "--", "--a", "-a", "-ab", "-az", "-zy", "--s", "--s=v", "--l", "--zz", "-z", "--zz=1", "c", "e", "v"}
+			alpha := []string{"p", "", "-", "--", "--a", "-a", "-ab", "-az", "-zy", "--s", "--s=v", "--l", "--zz", "-z", "--zz=1", "c", "e", "v", "--n", "5", "--m=k=v"}
 			c.Res.Bounds = map[string]any{"L": depth, "alphabet": alpha, "configurations": 18}
 			dist := distinctSet{}
 			sw := &sweep{c: c, defs: configs(defC03, []bool{false, true}), alpha: alpha, depth: depth}
